@@ -142,7 +142,8 @@ Record inv (ty G rem : N) (E : store) (acc : kmap) (b : builder) : Prop := mkInv
   i_top : top_empty (b_stack b);
   i_len : b_len b = len acc;
   i_budget : len E + len (b_stack b) + rem <= G;
-  i_G : NODE_MAX * G + 100 < U64
+  i_G : NODE_MAX * G + 100 < U64;
+  i_nacc : len acc + rem <= G      (* hence the key count fits the footer *)
 }.
 Definition last_ok (acc : kmap) (b : builder) : Prop :=
   b_last b = match acc with [] => None | (k, _) :: _ => Some k end.
